@@ -196,6 +196,13 @@ static uint64_t do_call(const std::string& fullname, Fixture& own, int tid, int 
         embedded_pairing_wkdibe_params_set_length(&p2, buf, embedded_pairing_wkdibe_params_get_marshalled_length(&f.wkp, true), true);
         bool ok = embedded_pairing_wkdibe_params_unmarshal(&p2, buf, true, true);
         p2.h = nullptr; h = fnv(hh, sizeof hh, fnv(&p2, sizeof p2)) ^ (ok ? 1 : 0);
+    } else if (name == "zp.random") {
+        // the scalar samplers of both layers (Fr::random behind them) and the G1 sampler
+        embedded_pairing_core_bigint_256_t a, b; memset(&a, 0, sizeof a); memset(&b, 0, sizeof b);
+        embedded_pairing_bls12_381_zp_random(&a, rt_random);
+        embedded_pairing_wkdibe_random_zpstar((embedded_pairing_wkdibe_scalar_t*) &b, rt_random);
+        embedded_pairing_bls12_381_g1_t r; memset(&r, 0, sizeof r); embedded_pairing_bls12_381_g1_random(&r, rt_random);
+        h = fnv(&a, sizeof a, fnv(&b, sizeof b, fnv(&r, sizeof r)));
     } else if (name == "g2.random") {
         embedded_pairing_bls12_381_g2_t r; memset(&r, 0, sizeof r); embedded_pairing_bls12_381_g2_random(&r, rt_random); h = fnv(&r, sizeof r);
     }
